@@ -209,7 +209,7 @@ def ferrOut {α : Type} (inp : MdsFile.Input) (gap : MdsFile.Input → Out α) :
   | .writer (.player e) => .inputError (playerMsg e)
   | .writer _ => .inputError "MDSDRV: command rejected by the track writer"
   | .codec .atEmpty => .foreign "out_of_range"
-  | .codec .stackEmpty => .foreign "ub:stack-top-on-empty"
+  | .codec .stackEmpty => .inputError "MDSDRV: loop break or loop end without a loop start in the sequence data"
   | .indexRange => .inputError "MDSDRV: index does not fit in a byte"
   | .headerWrap => .foreign "ub:header-wrap"
   | .seqTooLarge => .inputError "MDSDRV: sequence data too large"
